@@ -25,6 +25,8 @@ type slideIdListXML struct {
 type slideIdXML struct {
 	ID  string `xml:"id,attr"`
 	RID string `xml:"http://schemas.openxmlformats.org/officeDocument/2006/relationships id,attr"` // r:id attribute for relationship
+	// r:id of a presentation saved in the ISO/IEC 29500 Strict conformance class
+	RIDStrict string `xml:"http://purl.oclc.org/ooxml/officeDocument/relationships id,attr"`
 }
 
 type slideSzXML struct {
